@@ -49,20 +49,17 @@ def parseObs : SExp → Option Obs
     pure { res := res, emits := emits, alive := alive, sigs := sigs }
   | _ => none
 
-/-- The known-finding class an input belongs to, chosen by the conjunct of Spec that failed. -/
+/-- The known-finding class an input belongs to, chosen by the conjunct of Spec that failed.
+    Judged with the model of the code as it is (`codeCfg`): only the classes of the findings that are still
+    open are named; a failure in a repaired class (stop of an unreaped child, full channel, KILL of an inactive
+    task, crashing launches, KILL before the TASK_RUNNING timer) has no excuse and is a plain violation. -/
 def hypOf (k : Kind) (b : Beh) (ops : List Op) (o : Obs) : String :=
-  let nv (P : St → Op → Bool) : Bool := !never P k b ops      -- the schedule meets the class
+  let nv (P : St → Op → Bool) : Bool := !never codeCfg P k b ops      -- the schedule meets the class
   if !noStuck o.res then
-    if k = .nodata then "launch_nil_data_panics"
-    else if launchCrashes k b then "ctl_start_failure_panics"
-    else if nv stopUnreaped then "stop_unreaped_basic_panics"
-    else if nv killNoRpc then "kill_unready_ctl_panics"
-    else if nv stopChannelFull then "stop_signalled_twice_hangs"
-    else if nv killInactive then "kill_inactive_ends_loop"
+    if nv killNoRpc then "kill_unready_ctl_panics"
     else "-"
   else if !nothingAfter o.emits then
-    if nv killArmed then "kill_before_running_timer"
-    else if nv killLive then "basic_kill_spares_child"
+    if nv killLive then "basic_kill_spares_child"
     else "-"
   else if !noSurvivors ops o then
     if nv killLive then "basic_kill_spares_child"
@@ -78,7 +75,7 @@ def processLine (line : String) : String :=
       match Kind.parse? ks, Beh.parse? bs, opsx.mapM? (fun x => do Op.parse? (← x.str?)) with
       | some k, some b, some ops =>
         if !validCase k b then "BADINPUT\t0\t-" else
-        let model := obsSx (run k b ops).obs
+        let model := obsSx (run codeCfg k b ops).obs
         match (SExp.parse impl).bind parseObs with
         | some o =>
           let spec := Spec ops o
